@@ -1,4 +1,159 @@
-//! C15 streams (filled in below).
-pub fn ovw(_line: &str) -> String {
-    unimplemented!()
+//! C15 streams at the function level: `ovw` resolves a stack of option levels
+//! with the crate's `BenchOptions::overwrite` (descent as in `run_tree`, runner
+//! over entry as in `run_bench_entry`) and optionally runs a `Bencher` over
+//! the result to see the counters it holds after a `Bencher::counter` call;
+//! `into` runs `IntoThreads::into_threads`.
+use std::borrow::Cow;
+use std::time::Duration;
+
+use divan::__private::{BenchOptions, IntoThreads};
+use divan::__verif as v;
+use divan::counter::{BytesCount, CharsCount, CyclesCount, ItemsCount};
+
+use crate::{section, sections};
+
+fn parse_level(spec: &str) -> Option<BenchOptions<'static>> {
+    if spec == "-" {
+        return None;
+    }
+    let mut o = BenchOptions::default();
+    for kv in spec.split(',').filter(|s| !s.is_empty()) {
+        let (k, val) = kv.split_once('=').expect("k=v");
+        match k {
+            "sc" => o.sample_count = Some(val.parse().unwrap()),
+            "ss" => o.sample_size = Some(val.parse().unwrap()),
+            "th" => {
+                let l: Vec<usize> = val.split('.').filter(|s| !s.is_empty()).map(|s| s.parse().unwrap()).collect();
+                o.threads = Some(Cow::Owned(l));
+            }
+            "mn" => o.min_time = Some(Duration::from_nanos(val.parse().unwrap())),
+            "mx" => o.max_time = Some(Duration::from_nanos(val.parse().unwrap())),
+            "se" => o.skip_ext_time = Some(val == "1"),
+            "ig" => o.ignore = Some(val == "1"),
+            "cb" => {
+                o.counters.insert(BytesCount::new(val.parse::<u64>().unwrap()));
+            }
+            "cc" => {
+                o.counters.insert(CharsCount::new(val.parse::<u64>().unwrap()));
+            }
+            "cy" => {
+                o.counters.insert(CyclesCount::new(val.parse::<u64>().unwrap()));
+            }
+            "ci" => {
+                o.counters.insert(ItemsCount::new(val.parse::<u64>().unwrap()));
+            }
+            other => panic!("bad field {other}"),
+        }
+    }
+    Some(o)
+}
+
+fn show_opt<T: ToString>(k: &str, val: Option<T>) -> String {
+    match val {
+        Some(x) => format!("{k}={}", x.to_string()),
+        None => format!("{k}=-"),
+    }
+}
+
+fn show(o: &BenchOptions) -> String {
+    let th = o.threads.as_deref().map(|l| l.iter().map(|n| n.to_string() + ".").collect::<String>());
+    [
+        show_opt("sc", o.sample_count),
+        show_opt("ss", o.sample_size),
+        show_opt("th", th),
+        show_opt("mn", o.min_time.map(|d| d.as_nanos())),
+        show_opt("mx", o.max_time.map(|d| d.as_nanos())),
+        show_opt("se", o.skip_ext_time.map(|b| b as u8)),
+        show_opt("ig", o.ignore.map(|b| b as u8)),
+        show_opt("cb", v::options_counter(o, 0)),
+        show_opt("cc", v::options_counter(o, 1)),
+        show_opt("cy", v::options_counter(o, 2)),
+        show_opt("ci", v::options_counter(o, 3)),
+    ]
+    .join(" ")
+}
+
+/// `#L G:.. G:.. B:.. R:.. [#C kind=value]` -> resolved options [`#K` counters held by the Bencher]
+pub fn ovw(line: &str) -> String {
+    let secs = sections(line);
+    let mut groups: Vec<Option<BenchOptions<'static>>> = Vec::new();
+    let mut bench = None;
+    let mut runner = BenchOptions::default();
+    for tok in section(&secs, "L") {
+        let (kind, spec) = tok.split_once(':').expect("level");
+        match kind {
+            "G" => groups.push(parse_level(spec)),
+            "B" => bench = parse_level(spec),
+            "R" => runner = parse_level(spec).unwrap_or_default(),
+            other => panic!("bad level {other}"),
+        }
+    }
+    // `run_tree`: child over parent while descending; the benchmark is the last child.
+    let levels: Vec<&Option<BenchOptions<'static>>> = groups.iter().chain(std::iter::once(&bench)).collect();
+    let mut acc: Option<BenchOptions> = None;
+    for child in levels {
+        acc = match (acc, child.as_ref()) {
+            (None, None) => None,
+            (Some(p), None) => Some(p),
+            (None, Some(c)) => Some(c.clone()),
+            (Some(p), Some(c)) => {
+                // The result borrows from both; detach it so the loop can go on.
+                let r = v::options_overwrite(c, &p);
+                Some(detach(&r))
+            }
+        };
+    }
+    // `run_bench_entry`: runner over entry.
+    let resolved: BenchOptions = match &acc {
+        None => runner.clone(),
+        Some(e) => detach(&v::options_overwrite(&runner, e)),
+    };
+    let mut out = show(&resolved);
+    let c = section(&secs, "C");
+    if let Some(tok) = c.first() {
+        let (k, val) = tok.split_once('=').expect("counter");
+        let n: u64 = val.parse().unwrap();
+        let kind = k.to_owned();
+        let dump = v::run_bencher(
+            &v::RunConfig { options: &resolved, threads: 1, is_test: true, tsc_frequency: None, compute_stats: false },
+            &move |b| match kind.as_str() {
+                "cb" => b.counter(BytesCount::new(n)).bench(|| ()),
+                "cc" => b.counter(CharsCount::new(n)).bench(|| ()),
+                "cy" => b.counter(CyclesCount::new(n)).bench(|| ()),
+                "ci" => b.counter(ItemsCount::new(n)).bench(|| ()),
+                other => panic!("bad counter {other}"),
+            },
+        );
+        out.push_str(" #K");
+        for (name, counts) in ["cb", "cc", "cy", "ci"].iter().zip(dump.counts.iter()) {
+            out.push_str(&format!(" {name}={}", counts.iter().map(|c| c.to_string() + ".").collect::<String>()));
+        }
+    }
+    out
+}
+
+/// A deep copy with an owned thread list.
+fn detach(o: &BenchOptions) -> BenchOptions<'static> {
+    BenchOptions {
+        sample_count: o.sample_count,
+        sample_size: o.sample_size,
+        threads: o.threads.as_deref().map(|l| Cow::Owned(l.to_vec())),
+        counters: o.counters.clone(),
+        min_time: o.min_time,
+        max_time: o.max_time,
+        skip_ext_time: o.skip_ext_time,
+        ignore: o.ignore,
+    }
+}
+
+/// `v n n n` (iterable), `u n` (usize), `b 0|1` (bool) -> normalised list
+pub fn into(line: &str) -> String {
+    let t: Vec<&str> = line.split(' ').collect();
+    let r: Cow<'static, [usize]> = match t[0] {
+        "v" => IntoThreads::into_threads(t[1..].iter().map(|s| s.parse::<usize>().unwrap()).collect::<Vec<usize>>()),
+        "u" => IntoThreads::into_threads(t[1].parse::<usize>().unwrap()),
+        "b" => IntoThreads::into_threads(t[1] == "1"),
+        other => panic!("bad kind {other}"),
+    };
+    r.iter().map(|n| n.to_string() + ".").collect::<String>() + "|"
 }
